@@ -125,6 +125,15 @@ def run(ctx):
         trans = {}
         from rules.stale import removal_fns
         removal_paths = {p2 for p2, g in removal_fns(prog).items() if g.self_adt == tree}
+        # every function that releases exactly one slot on every path is a complete removal for its callers (the removal
+        # may be split into an outer function that moves the payload and an inner one that unlinks and releases)
+        try:
+            from rules.pool import select_removal
+            sel = select_removal(prog, tree, r, [f for f in prog.fns.values() if f.self_adt == tree and not f.is_closure])
+            if len(sel['removal']) == 1 and not sel['bad']:
+                removal_paths |= (set(sel['T0']) - set(sel['W']))
+        except Exception:
+            pass
         for f in fam_fns:
             if f.self_adt != tree:
                 continue
